@@ -17,6 +17,7 @@ const (
 	RelPreexisting = "preexisting" // every target exists with an older, valid representation
 	RelPartial     = "partial"     // only the first target exists
 	RelSymlinkDir  = "symlinkdir"  // no target exists; the font directory path is a symlink to a directory (C07 only)
+	RelDangling    = "dangling"    // the first target exists as a dangling symbolic link (it has to be backed up and restored like any other entry)
 )
 
 type fontInput struct {
@@ -71,7 +72,7 @@ func preinstallOld(e *Env, letters []byte) error {
 }
 
 func fontOp(name string, inputs []fontInput, targets []byte, natural bool, run func(e *Env, files []string) error) *Op {
-	o := &Op{Name: name, Family: "install", Rels: []string{RelFresh, RelPreexisting, RelPartial}, NaturalFail: natural}
+	o := &Op{Name: name, Family: "install", Rels: []string{RelFresh, RelPreexisting, RelPartial, RelDangling}, NaturalFail: natural}
 	o.SetupInstall = func(e *Env, rel string) error {
 		e.In = writeFontInputs(e, inputs)
 		// a bystander font that is installed already and must survive everything
@@ -91,6 +92,10 @@ func fontOp(name string, inputs []fontInput, targets []byte, natural bool, run f
 		case RelPartial:
 			if len(targets) > 0 {
 				return preinstallOld(e, targets[:1])
+			}
+		case RelDangling:
+			if len(targets) > 0 {
+				return os.Symlink("/nonexistent/verif-old-font.gob", filepath.Join(e.FontDir, gen.FontName(targets[0])+".gob"))
 			}
 		}
 		return nil
